@@ -385,6 +385,10 @@ func runC13(c *Ctx, body json.RawMessage) *Verdict {
 		return v.Harness("open: %v", err)
 	}
 	srv := verifcli.NewServer(idx)
+	if srv == nil {
+		idx.Close()
+		return v.Harness("the service value of `updog server` could not be built the way the program builds it")
+	}
 	for bi, batch := range cs.Batches {
 		req, qs, ids, ok := buildRequest(batch)
 		if !ok {
